@@ -33,6 +33,15 @@ def prop_crc(d, s):
         return f"FAIL crc8404B={got} bit-serial={want}"
     if not 0 <= got < 65536:
         return f"FAIL result {got} does not fit in 16 bits"
+    # `data` is any sequence of byte values, not only `bytes`
+    for what, mk in (("bytearray", bytearray), ("list of ints", list), ("tuple", tuple), ("memoryview", memoryview),
+                     ("memoryview of a bytearray", lambda b: memoryview(bytearray(b))), ("generator", lambda b: (c for c in b))):
+        try:
+            g2 = crc8404B(mk(data), start)
+        except Exception as e:
+            return f"FAIL the same bytes as {what}: {type(e).__name__}: {e}"
+        if g2 != want:
+            return f"FAIL the same bytes as {what}: crc8404B={g2} bit-serial={want}"
     return "ok"
 
 
